@@ -228,6 +228,15 @@ func (r *tamperRun) Main(s *sim.Sim) {
 				f = (&refcodec.Chunk{Type: "MSG", ChunkType: 'F', ChannelID: ch.ChannelID, TokenID: ch.TokenID, Seq: ch.Seq, RequestID: ch.RequestID, Body: body}).EncodePlain()
 			case "forge-opn-none":
 				ch := lastPlain[dir]
+				if typ == "OPN" && dir == "s2c" && lastPlain["c2s"] != nil {
+					// the server's answer to the client's OpenSecureChannel request is replaced by an
+					// unsecured one naming policy #None (a peer without any key "opens" the channel)
+					rq := lastPlain["c2s"]
+					body, _ := encodeService(&ua.OpenSecureChannelResponse{ResponseHeader: rawRespHeader(rq.RequestID, ua.StatusOK),
+						SecurityToken: &ua.ChannelSecurityToken{ChannelID: 4242, TokenID: 7, CreatedAt: time.Now(), RevisedLifetime: 3600000}, ServerNonce: []byte{}})
+					f = (&refcodec.Chunk{Type: "OPN", ChunkType: 'F', ChannelID: 4242, PolicyURI: refcodec.PolicyNone, Seq: 1, RequestID: rq.RequestID, Body: body}).EncodePlain()
+					break
+				}
 				if typ != "MSG" || ch == nil || dir != "c2s" {
 					f[len(f)-1] ^= 1
 					break
